@@ -403,7 +403,11 @@ impl StrExt for str {
             // The word characters in ASCII compatible mode (with the `-u` flag) match the
             // definition in the spec: any character not in the set `[A-Za-z0-9_]`.
             let regex = format!(r"(?-u:^|\W|\b){}(?-u:\b|\W|$)", chunks.concat());
-            let re = Regex::new(&regex).expect("regex construction should succeed");
+            // The only way for the construction to fail is a pattern that is too big to be
+            // compiled, it is treated as not matching.
+            let Ok(re) = Regex::new(&regex) else {
+                return false;
+            };
             re.is_match(self.as_bytes())
         } else {
             match self.find(pattern) {
